@@ -14,7 +14,7 @@ import z3
 from pyvc import theory as T
 from pyvc import builtins as B
 from pyvc.theory import TInt, TBool, TStr, TList, TRec, TDict, SpecFun
-from pyvc.engine import Contract, Case, LoopSpec, ZV, PNone, zstr
+from pyvc.engine import Contract, Case, LoopSpec, ZV, PNone, zstr, zbool
 
 IO = 'lib_guesser.omen.input_file_io'
 LSTR = TList(TStr)
@@ -221,3 +221,216 @@ _cp.loops[1].hints = _cp_hints
 
 def lemmas():
     return pl_implies_p.lemmas() + absent_is_empty.lemmas()
+
+
+# =============================================================================================== scorer: OmenScorer._load_omen
+SC = 'lib_scorer.omen_scorer:OmenScorer'
+from pyvc.engine import ObjShape     # noqa: E402
+LEVELMAP = TDict(TStr, TInt)
+LINT = TList(TInt)
+SC_LOAD = ObjShape(SC, {'encoding': TStr, 'ip': LEVELMAP, 'cp': LEVELMAP, 'ln': LINT, 'ngram': TInt})
+
+HasKey = SpecFun('OmenHasKey', [LSTR.sort(), T.IntS, T.Str], z3.BoolSort(),
+                 lambda L, k, s: z3.If(k <= 0, z3.BoolVal(False), z3.Or(HasKey(L, k - 1, s), ngram_of(line_at(L, k - 1)) == s)),
+                 doc='some of the first k lines lists the n-gram s', quantified=True)
+LastLevel = SpecFun('OmenLastLevel', [LSTR.sort(), T.IntS, T.Str], T.IntS,
+                    lambda L, k, s: z3.If(k <= 0, z3.IntVal(0), z3.If(ngram_of(line_at(L, k - 1)) == s, lvl_of(line_at(L, k - 1)), LastLevel(L, k - 1, s))),
+                    doc='the level of the last of the first k lines that lists the n-gram s', quantified=True)
+
+
+def level_map(tab, L, k):
+    s = z3.Const('s!lm', T.Str)
+    return z3.ForAll([s], z3.And(LEVELMAP.has(tab, s) == HasKey(L, k, s),
+                                 z3.Implies(HasKey(L, k, s), LEVELMAP.get(tab, s) == LastLevel(L, k, s))),
+                     patterns=[LEVELMAP.has(tab, s), HasKey(L, k, s), LEVELMAP.get(tab, s)])
+
+
+def ln_line_level(line):
+    return B.s_toint(rstrip_nl(line))
+
+
+LnList = SpecFun('OmenLnList', [LINT.sort(), LSTR.sort(), T.IntS], LINT.sort(),
+                 lambda ln0, L, k: z3.If(k <= 0, ln0, LINT.mk(LINT.len(LnList(ln0, L, k - 1)) + 1,
+                                                              z3.Store(LINT.arr(LnList(ln0, L, k - 1)), LINT.len(LnList(ln0, L, k - 1)),
+                                                                       ln_line_level(line_at(L, k - 1))))),
+                 doc='the initial list followed by the levels of the first k lines of LN.level')
+
+
+def omen_path(base, name):
+    return B.pjoin(B.pjoin(base, T.str_lit('Omen')), T.str_lit(name))
+
+
+def wf_pairs(L):
+    k = z3.Int('k!wp')
+    line = line_at(L, k)
+    return z3.ForAll([k], z3.Implies(z3.And(0 <= k, k < LSTR.len(L)),
+                                     z3.And(LSTR.len(B.s_split_tab(rstrip_nl(line))) == 2, B.s_isint(fld(line, 0)), lvl_of(line) >= 0)),
+                     patterns=[line_at(L, k)])
+
+
+def wf_levels(L):
+    k = z3.Int('k!wv')
+    line = line_at(L, k)
+    return z3.ForAll([k], z3.Implies(z3.And(0 <= k, k < LSTR.len(L)), z3.And(B.s_isint(rstrip_nl(line)), ln_line_level(line) >= 0)),
+                     patterns=[line_at(L, k)])
+
+
+def _lo_requires(c):
+    b = c.base_directory.term
+    empty = z3.Const('s!lo', T.Str)
+    return [('fresh_tables', z3.And(z3.ForAll([empty], z3.Not(LEVELMAP.has(c.self.fields['ip'].term, empty)), patterns=[LEVELMAP.has(c.self.fields['ip'].term, empty)]),
+                                    z3.ForAll([empty], z3.Not(LEVELMAP.has(c.self.fields['cp'].term, empty)), patterns=[LEVELMAP.has(c.self.fields['cp'].term, empty)]),
+                                    c.self.fields['ngram'].term == -1)),
+            ('wf_files', z3.And(wf_pairs(B.fs_lines(omen_path(b, 'IP.level'))), wf_pairs(B.fs_lines(omen_path(b, 'CP.level'))),
+                                wf_levels(B.fs_lines(omen_path(b, 'LN.level')))))]
+
+
+def _lo_ensures(c):
+    b = c.base_directory.term
+    s1 = c.after['self']
+    ipL, cpL, lnL = (B.fs_lines(omen_path(b, n)) for n in ('IP.level', 'CP.level', 'LN.level'))
+    return [('ip_is_the_file', level_map(s1.fields['ip'].term, ipL, LSTR.len(ipL))),
+            ('cp_is_the_file', level_map(s1.fields['cp'].term, cpL, LSTR.len(cpL))),
+            ('ln_is_the_file', s1.fields['ln'].term == LnList(c.self.fields['ln'].term, lnL, LSTR.len(lnL))),
+            ('ngram_is_the_length_of_the_first_transition', z3.Implies(LSTR.len(cpL) > 0, s1.fields['ngram'].term == T.slen(ngram_of(line_at(cpL, 0))))),
+            ('encoding_kept', s1.fields['encoding'].term == c.self.fields['encoding'].term)]
+
+
+def _lo_inv(which):
+    def inv(L):
+        b = L.entry.args['base_directory'].term
+        s0 = L.entry.args['self']
+        s = L.self
+        ipL, cpL, lnL = (B.fs_lines(omen_path(b, n)) for n in ('IP.level', 'CP.level', 'LN.level'))
+        out = [('encoding_kept', s.fields['encoding'].term == s0.fields['encoding'].term)]
+        if which == 'ip':
+            out += [('ip_prefix', level_map(s.fields['ip'].term, ipL, L.i)), ('cp_untouched', s.fields['cp'].term == s0.fields['cp'].term),
+                    ('ln_untouched', s.fields['ln'].term == s0.fields['ln'].term), ('ngram_untouched', s.fields['ngram'].term == -1)]
+        elif which == 'cp':
+            out += [('ip_done', level_map(s.fields['ip'].term, ipL, LSTR.len(ipL))), ('cp_prefix', level_map(s.fields['cp'].term, cpL, L.i)),
+                    ('ln_untouched', s.fields['ln'].term == s0.fields['ln'].term),
+                    ('ngram', z3.If(L.i == 0, s.fields['ngram'].term == -1, s.fields['ngram'].term == T.slen(ngram_of(line_at(cpL, 0)))))]
+        else:
+            out += [('ip_done', level_map(s.fields['ip'].term, ipL, LSTR.len(ipL))), ('cp_done', level_map(s.fields['cp'].term, cpL, LSTR.len(cpL))),
+                    ('ln_prefix', s.fields['ln'].term == LnList(s0.fields['ln'].term, lnL, L.i)),
+                    ('ngram', z3.Implies(LSTR.len(cpL) > 0, s.fields['ngram'].term == T.slen(ngram_of(line_at(cpL, 0)))))]
+        return out
+    return inv
+
+
+Contract(
+    SC + '._load_omen',
+    params={'self': SC_LOAD, 'base_directory': TStr},
+    requires=_lo_requires,
+    ensures=_lo_ensures,
+    self_modifies=('ip', 'cp', 'ln', 'ngram'),
+    loops={0: LoopSpec(fingerprint='for line in file', inv=_lo_inv('ip')),
+           1: LoopSpec(fingerprint='for line in file', inv=_lo_inv('cp')),
+           2: LoopSpec(fingerprint='for line in file', inv=_lo_inv('ln'))},
+    raises=('IOError', 'ValueError', 'Exception'),
+    note='C07/C11.scorer.loader: ip / cp map every n-gram listed in IP.level / CP.level to the level of its (last) line, the n-gram being the second field of the '
+         'line with only its terminator removed; ln is extended by the levels of LN.level in file order; ngram is the length of the first CP n-gram',
+)
+
+
+# =============================================================================================== trainer: the IP.level / CP.level writers (statement slices)
+OFO = 'lib_trainer.omen.omen_file_output'
+import contracts.trainer_io as tio          # noqa: E402  (ghost file system $fs: path -> list of written chunks)
+import contracts.omen_keyspace as oks       # noqa: E402  (trainer object shape, dict.items() contract)
+
+W_LV = oks.LV
+W_NEXT = oks.NEXT
+W_GENT = oks.GENT
+W_GRAM = oks.GRAM
+W_ITEMS = oks.GITEMS
+N_ITEM = TList(T.TTuple([TStr, W_LV]))
+next_items = z3.Function('next_items', W_NEXT.sort(), N_ITEM.sort())
+
+
+def _w_items(eng, e, st, val, valexpr, args, kw):
+    if isinstance(val, ZV) and val.shape == W_NEXT:
+        it = next_items(val.term)
+        st.assume(N_ITEM.len(it) >= 0)
+        eng.assumed.add('dict.items(): every present key exactly once with its value (order unspecified)')
+        return ZV(N_ITEM, it)
+    return oks._g_items(eng, e, st, val, valexpr, args, kw)
+
+
+def install_writer(eng):
+    tio.install(eng)
+    eng.builtins['method.items'] = _w_items
+
+
+FS = tio.FS
+
+
+def ip_line(g, i):
+    el = z3.Select(W_ITEMS.arr(oks.g_items(g)), i)
+    return T.scat(T.scat(T.scat(T.sofint(W_GENT.get(oks.GITEM.get(el, 1), 'ip_level')), T.str_lit('\t')), oks.GITEM.get(el, 0)), T.str_lit('\n'))
+
+
+IpChunks = SpecFun('OmenIpChunks', [W_GRAM.sort(), T.IntS], LSTR.sort(),
+                   lambda g, k: z3.If(k <= 0, _empty_lstr(), app(IpChunks(g, k - 1), ip_line(g, k - 1))),
+                   doc='the lines written for the first k initial n-grams: level TAB n-gram LF')
+
+_ipw = Contract(
+    OFO + ':save_omen_rules_to_disk#ip_writer',
+    params={'omen_trainer': oks.TRAINER, 'omen_directory': TStr, 'encoding': TStr, '$fs': FS},
+    cases=[Case('written', lambda c: PNone(),
+                lambda c: None if not isinstance(c.result, PNone) else [
+                    ('one_line_per_initial_ngram', FS.get(c.after['$fs'].term, B.pjoin(c.omen_directory.term, T.str_lit('IP.level'))) ==
+                     IpChunks(c.omen_trainer.fields['grammar'].term, W_ITEMS.len(oks.g_items(c.omen_trainer.fields['grammar'].term))))]),
+           Case('io_error', lambda c: zbool(False), lambda c: None if isinstance(c.result, PNone) else [('reported', z3.BoolVal(True))])],
+    loops={0: LoopSpec(fingerprint='for key, data in omen_trainer.grammar.items()',
+                       inv=lambda L: [('lines_so_far', FS.get(L.env['$fs'].term, B.pjoin(L.entry.args['omen_directory'].term, T.str_lit('IP.level'))) ==
+                                       IpChunks(L.entry.args['omen_trainer'].fields['grammar'].term, L.i))],
+                       extra_writes=['$fs'])},
+    raises=(),
+    note='C11.writer.ip: IP.level holds one line per entry of the trainer table, in iteration order: its ip_level, TAB, the n-gram, LF (no entry skipped)',
+)
+_ipw.slice = ('full_path = os.path.join(omen_directory, "IP.level")', 2)
+
+
+def cp_line(g, i, j):
+    el = z3.Select(W_ITEMS.arr(oks.g_items(g)), i)
+    nl = next_items(W_GENT.get(oks.GITEM.get(el, 1), 'next_letter'))
+    it = z3.Select(N_ITEM.arr(nl), j)
+    sh = T.TTuple([TStr, W_LV])
+    return T.scat(T.scat(T.scat(T.scat(T.sofint(W_LV.get(sh.get(it, 1), 0)), T.str_lit('\t')), oks.GITEM.get(el, 0)), sh.get(it, 0)), T.str_lit('\n'))
+
+
+def n_next(g, i):
+    el = z3.Select(W_ITEMS.arr(oks.g_items(g)), i)
+    return N_ITEM.len(next_items(W_GENT.get(oks.GITEM.get(el, 1), 'next_letter')))
+
+
+CpInner = SpecFun('OmenCpInner', [W_GRAM.sort(), LSTR.sort(), T.IntS, T.IntS], LSTR.sort(),
+                  lambda g, acc, i, j: z3.If(j <= 0, acc, app(CpInner(g, acc, i, j - 1), cp_line(g, i, j - 1))),
+                  doc='acc followed by the lines of the first j transitions of the i-th prefix')
+CpOuter = SpecFun('OmenCpOuter', [W_GRAM.sort(), T.IntS], LSTR.sort(),
+                  lambda g, i: z3.If(i <= 0, _empty_lstr(), CpInner(g, CpOuter(g, i - 1), i - 1, n_next(g, i - 1))),
+                  doc='the lines written for the first i prefixes (all their transitions)')
+
+
+def _cpw_path(L):
+    return B.pjoin(L.entry.args['omen_directory'].term, T.str_lit('CP.level'))
+
+
+_cpw = Contract(
+    OFO + ':save_omen_rules_to_disk#cp_writer',
+    params={'omen_trainer': oks.TRAINER, 'omen_directory': TStr, 'encoding': TStr, '$fs': FS},
+    ensures=lambda c: [('one_line_per_transition', FS.get(c.after['$fs'].term, B.pjoin(c.omen_directory.term, T.str_lit('CP.level'))) ==
+                        CpOuter(c.omen_trainer.fields['grammar'].term, W_ITEMS.len(oks.g_items(c.omen_trainer.fields['grammar'].term))))],
+    loops={0: LoopSpec(fingerprint='for key, data in omen_trainer.grammar.items()',
+                       inv=lambda L: [('lines_so_far', FS.get(L.env['$fs'].term, _cpw_path(L)) == CpOuter(L.entry.args['omen_trainer'].fields['grammar'].term, L.i))],
+                       extra_writes=['$fs']),
+           1: LoopSpec(fingerprint="for last_letter, level in data['next_letter'].items()",
+                       inv=lambda L: [('lines_so_far', FS.get(L.env['$fs'].term, _cpw_path(L)) ==
+                                       CpInner(L.entry.args['omen_trainer'].fields['grammar'].term,
+                                               CpOuter(L.entry.args['omen_trainer'].fields['grammar'].term, L.env['$i0'].term), L.env['$i0'].term, L.i)),
+                                      ('key', z3.And(L.key.term == oks.GITEM.get(z3.Select(W_ITEMS.arr(oks.g_items(L.entry.args['omen_trainer'].fields['grammar'].term)), L.env['$i0'].term), 0)))],
+                       extra_writes=['$fs'])},
+    raises=('*',),
+    note='C11.writer.cp: CP.level holds one line per transition of every prefix, in iteration order: its level, TAB, prefix + letter, LF',
+)
+_cpw.slice = ('full_path = os.path.join(omen_directory, "CP.level")', 2)
